@@ -33,6 +33,7 @@ func runC14(c *Ctx) {
 	c.rule("O9", "a wait computed from the clock (time.Until, Time.Sub) is clamped at zero before it is used: the value goes nowhere but into a comparison or a merge whose lower bound is 0", 1)
 	c.rule("O10", "a retried operation reports the end of its context by ctx.Err() (converted to 'cancelled' / 'timeout'): context.Cause is not used in packages retry, http, parallelisation or commonerrors", 0)
 	c.rule("O2", "a header-derived number multiplied into a time.Duration is clamped to [0, MaxInt64/multiplier] on every path", 1)
+	c.rule("O11", "in each Apply no wait is returned before the test of ConsiderRetryAfter: the server's hint replaces the computed wait for every attempt number, also where the computed wait is capped", 3)
 	c.rule("O3", "the Apply siblings share the Retry-After prologue: consulted only under ConsiderRetryAfter, hint returned exactly when found", 3)
 	c.rule("O4", "fall-backs: constant → min; linear → LinearJitterBackoff(min,max,attempt,resp); exponential → max unless the wait is representable and ≤ max", 3)
 	c.rule("O5", "policy selection follows (Enabled, BackOffEnabled, LinearBackOffEnabled); the retrying client takes RetryMax / RetryWaitMin / RetryWaitMax / Backoff from the same configuration", 4)
@@ -453,6 +454,27 @@ func (c *Ctx) c14Siblings() {
 		if call == nil {
 			c.violate("O3", key, c.pos(f.Pos()), "Apply no longer consults Retry-After (findRetryAfter): the server's hint is ignored even when enabled")
 			continue
+		}
+		// O11: "a Retry-After value on a 429/503 response replaces it exactly when that is enabled" — for every attempt number:
+		// no wait is returned before the option was looked at (a representability guard placed first returns the cap and the
+		// server's hint is never read for large attempt numbers).
+		{
+			var test *ssa.BasicBlock
+			for _, b := range f.Blocks {
+				if ifi, ok := b.Instrs[len(b.Instrs)-1].(*ssa.If); ok {
+					if v, _ := boolTest(ifi); isConsider(v) && (test == nil || b.Dominates(test)) {
+						test = b
+					}
+				}
+			}
+			early := ""
+			allInstrs(f, func(in ssa.Instruction) {
+				if r, ok := in.(*ssa.Return); ok && (test == nil || !test.Dominates(r.Block())) {
+					early = c.ipos(r)
+				}
+			})
+			c.check(test != nil && early == "", "O11", key+"/hint-first", c.pos(f.Pos()), "every return follows the test of ConsiderRetryAfter",
+				"a wait is returned at "+early+" before the policy looked at whether a Retry-After value is to be honoured: for the inputs that take that exit (attempt numbers whose linear bound is not representable) the server's hint — 7 seconds, or a date in the past — is ignored and the cap of 292 years is returned instead")
 		}
 		good, why := true, ""
 		if !onBoolSide(call, true, isConsider) {
